@@ -121,7 +121,7 @@ func init() {
 				}
 				return "", false
 			}
-			required := fc.edgesEntailing(cls, func(v map[string]bool) bool { return !v["opt"] && !v["key"] })
+			required := fc.edgesEntailing(cls, func(v map[string]bool) bool { return (v["$has:opt"] && !v["opt"]) && (v["$has:key"] && !v["key"]) })
 			minBlocks := fc.blocksWith(func(n ast.Node) bool {
 				s, ok := n.(*ast.IncDecStmt)
 				return ok && s.Tok == token.INC && identObj(info, s.X) == minO
@@ -139,7 +139,7 @@ func init() {
 			}
 			// max unbounded when variadic || inKey: the composite with max: -1 is on an edge entailing var||key
 			unb := fc.edgesEntailing(cls, func(v map[string]bool) bool { return v["var"] || v["key"] })
-			bounded := fc.edgesEntailing(cls, func(v map[string]bool) bool { return !v["var"] && !v["key"] })
+			bounded := fc.edgesEntailing(cls, func(v map[string]bool) bool { return (v["$has:var"] && !v["var"]) && (v["$has:key"] && !v["key"]) })
 			negOne := fc.blocksWith(func(n ast.Node) bool {
 				found := false
 				ast.Inspect(n, func(m ast.Node) bool {
